@@ -97,7 +97,11 @@ RedOpOf(name) == CASE name = "sum" -> "add" [] name = "product" -> "mul"
                    [] name = "all" -> "and" [] name = "any" -> "or"
 
 Unary(fid, v) == IF v >= POISON THEN POISON ELSE D(UF(fid, ToD(v)))
-Cast(fid, v, nocast) == IF nocast \/ v < OFF \/ v >= POISON THEN v ELSE D(UF(fid, v - OFF))
+\* (zero is exact under every cast, in both spellings: eliminate_dead_code writes the
+\*  INTEGER literal 0 into float-typed index lambdas, and 0 == 0.0 makes such a node equal
+\*  to -- and merged with -- pt.zeros of the same shape)
+Cast(fid, v, nocast) == IF nocast \/ v < OFF \/ v >= POISON \/ v = OFF THEN v
+                        ELSE D(UF(fid, v - OFF))
 LNot(v) == IF v >= POISON THEN POISON ELSE B2I(~Truth(v))
 
 (***************************************************************************)
